@@ -448,7 +448,63 @@ var hdTargets = []mgTarget{
 	{"pkg/openid/oauth2.go", "ParAuthorizationRequestParams", "parRequestParams"},
 }
 
+// the sealing envelope: crypter, cookie sealing, ticket, session data sealing (C09)
+var cyTargets = []mgTarget{
+	{"internal/crypto/crypter.go", "NewCrypter", "newCrypter"},
+	{"internal/crypto/crypter.go", "EncryptionKeyOrGenerate", "encryptionKeyOrGenerate"},
+	{"internal/crypto/crypter.go", "crypter.Encrypt", "crypterEncrypt"},
+	{"internal/crypto/crypter.go", "crypter.Decrypt", "crypterDecrypt"},
+	{"pkg/cookie/cookie.go", "Cookie.Encrypt", "cookieEncrypt"},
+	{"pkg/cookie/cookie.go", "Cookie.Decrypt", "cookieDecrypt"},
+	{"pkg/cookie/cookie.go", "Get", "cookieGet"},
+	{"pkg/cookie/cookie.go", "GetDecrypted", "cookieGetDecrypted"},
+	{"pkg/cookie/cookie.go", "EncryptAndSet", "cookieEncryptAndSet"},
+	{"pkg/cookie/cookie.go", "Set", "cookieSet"},
+	{"pkg/session/ticket.go", "NewTicket", "newTicket"},
+	{"pkg/session/ticket.go", "Ticket.Crypter", "ticketCrypter"},
+	{"pkg/session/ticket.go", "Ticket.Key", "ticketKey"},
+	{"pkg/session/ticket.go", "Ticket.SetCookie", "ticketSetCookie"},
+	{"pkg/session/ticket.go", "getTicket", "getTicket"},
+	{"pkg/session/data.go", "EncryptedData.Decrypt", "encryptedDataDecrypt"},
+	{"pkg/session/data.go", "Data.Encrypt", "dataEncrypt"},
+	{"pkg/session/data.go", "Data.Validate", "dataValidate"},
+	{"pkg/session/session.go", "Session.encrypt", "sessionEncrypt"},
+	{"pkg/session/session.go", "Session.key", "sessionKey"},
+	{"pkg/session/session.go", "Session.SetCookie", "sessionSetCookie"},
+	{"pkg/session/session.go", "Session.AccessToken", "sessionAccessToken"},
+	{"pkg/session/session.go", "NewSession", "newSession"},
+}
+
+// the provider-facing side: token validation, grants, logout URLs (C01 C03 C05 C06 C11)
+var pvTargets = []mgTarget{
+	{"pkg/openid/tokens.go", "NewTokens", "newTokens"},
+	{"pkg/openid/tokens.go", "ParseIDToken", "parseIDToken"},
+	{"pkg/openid/tokens.go", "IDToken.Validate", "idTokenValidate"},
+	{"pkg/openid/tokens.go", "IDToken.Claim", "idTokenClaim"},
+	{"pkg/openid/tokens.go", "IDToken.StringClaim", "idTokenStringClaim"},
+	{"pkg/openid/tokens.go", "IDToken.Sid", "idTokenSid"},
+	{"pkg/openid/tokens.go", "IDToken.Acr", "idTokenAcr"},
+	{"pkg/openid/client/client.go", "Client.AuthCodeGrant", "authCodeGrant"},
+	{"pkg/openid/client/client.go", "Client.RefreshGrant", "refreshGrant"},
+	{"pkg/openid/client/client.go", "Client.ClientAuthenticationParams", "clientAuthenticationParams"},
+	{"pkg/openid/client/client.go", "Client.MakeAssertion", "makeAssertion"},
+	{"pkg/openid/client/client.go", "Client.oauthPostRequest", "oauthPostRequest"},
+	{"pkg/openid/client/logout.go", "NewLogout", "newLogout"},
+	{"pkg/openid/client/logout.go", "Logout.SingleLogoutURL", "singleLogoutURL"},
+	{"pkg/openid/client/logout.go", "Logout.SetCookie", "logoutSetCookie"},
+	{"pkg/openid/client/logout_callback.go", "NewLogoutCallback", "newLogoutCallback"},
+	{"pkg/openid/client/logout_callback.go", "LogoutCallback.PostLogoutRedirectURI", "postLogoutRedirectURI"},
+	{"pkg/openid/client/logout_callback.go", "LogoutCallback.stateMismatchError", "logoutStateMismatchError"},
+	{"pkg/openid/client/logout_frontchannel.go", "NewLogoutFrontchannel", "newLogoutFrontchannel"},
+	{"pkg/openid/client/logout_frontchannel.go", "LogoutFrontchannel.Sid", "frontchannelSid"},
+	{"pkg/openid/client/logout_frontchannel.go", "LogoutFrontchannel.MissingSidParameter", "frontchannelMissingSid"},
+}
+
 func genManager() {
+	genSkeletons("Provider.lean", "Ww.Gen.Provider", "Provider", "-- Control-flow skeletons of the provider-facing code (token validation, grants, logout), statement by statement in source order.\n",
+		"import Ww.Gen.Manager\n", false, pvTargets)
+	genSkeletons("Envelope.lean", "Ww.Gen.Envelope", "Envelope", "-- Control-flow skeletons of the sealing envelope (crypter, cookie sealing, ticket, session data), statement by statement in source order.\n",
+		"import Ww.Gen.Manager\n", false, cyTargets)
 	genSkeletons("Manager.lean", "Ww.Gen.Manager", "Manager", "-- Control-flow skeletons of the session manager, the session reader and the stores, statement by statement in source order.\n", "", true, mgTargets)
 	genSkeletons("Handlers.lean", "Ww.Gen.Handlers", "Handlers", "-- Control-flow skeletons of the session-bearing HTTP handlers, statement by statement in source order (types from Ww.Gen.Manager).\n",
 		"import Ww.Gen.Manager\n", false, hdTargets)
